@@ -532,7 +532,7 @@ Definition chk_C18_late (c o : value) : bool :=
    notification never stalls); C03: the client receives exactly those bytes. *)
 Definition chk_stream (c o : value) : bool :=
   match o with
-  | VL [VI written; VI notified; VI overshoot; VI got; VI stalled] =>
-      (overshoot <=? 0) && (notified =? written) && (got =? written) && negb (as_bool stalled)
+  | VL [VI written; VI notified; VI overshoot; VI got; VI stalled; VI inorder] =>
+      (overshoot <=? 0) && (notified =? written) && (got =? written) && negb (as_bool stalled) && as_bool inorder
   | _ => false
   end.
